@@ -40,6 +40,24 @@ class C15(Check):
                    "the cost model (NetworkOrder!CostVariant, checked exhaustively by MC_NetworkCost) is bound to the code through the logged which_variant of "
                    "every 3-operand case: a disagreement is MODEL-DRIFT (reported in the notes), never a violation"]
 
+    def post_events(self, ctx, traces):
+        os.environ["NET_ORDERS"] = os.path.join(ROOT, "spec", "net_orders.json")      # read by TraceNetwork (Orders)
+        return traces
+
+    def extra_coverage(self, ctx):
+        # tools/mk_net_orders.py: arrangements observed for the >= 4-operand networks of this run (recorded on the unchanged tree only)
+        if os.environ.get("VERIF_RECORD_ORDERS"):
+            tab = {}
+            for case, seqs in getattr(ctx, "order_lines", []):
+                arrs = [[int(x) for x in re.findall(r"-?\d+", a)] for a in re.findall(r"<<([\d,\s]*)>>", seqs)]
+                cur = tab.setdefault(case, [])
+                for a in arrs:
+                    if a and a not in cur:
+                        cur.append(a)
+            with open(os.environ["VERIF_RECORD_ORDERS"], "w") as f:
+                json.dump(tab, f, indent=0, sort_keys=True)
+        return {}
+
     def model_checks(self, ctx):
         model_check(ctx, "MC_NetworkOrder", "MC_NetworkOrder.cfg", workers=1)
         model_check(ctx, "MC_NetworkOrder", "MC_NetworkOrder_full.cfg", workers=1, expect_violation="OrderIndependent")
